@@ -635,7 +635,7 @@ impl<'d> Exec<'d> {
             match step {
                 Step::Connect(spec) => {
                     let cidx = self.world.borrow_mut().open_conn(&spec);
-                    let io = SimIo { world: self.world.clone(), conn: cidx };
+                    let io = SimIo::new(&self.world, cidx);
                     let snap = session.verif_snapshot();
                     let op = self.begin_op("connect", snap, false);
                     let mut pend = 0usize;
